@@ -11,7 +11,7 @@ from ..sym import SR, SI, Unsupported, assume
 DIMS = ("L", "M", "T", "I")
 
 
-class DimensionalityError(Exception):
+class DimensionalityError(TypeError):      # pint.DimensionalityError is a TypeError too
     pass
 
 
@@ -23,6 +23,28 @@ def _mul(a, b):
     if isinstance(a, SymArray) or isinstance(b, SymArray):
         return a * b
     return SR.lift(a) * SR.lift(b) if not (isinstance(a, (int, float)) and isinstance(b, (int, float))) else a * b
+
+
+class Dimensionality:
+    """pint's dimensionality container: equality of exponent vectors; `"[length]" in d` iff the exponent of that base dimension is non-zero"""
+    NAMES = {"[length]": 0, "[mass]": 1, "[time]": 2, "[current]": 3}
+
+    def __init__(self, dims):
+        self.dims = tuple(dims)
+
+    def __eq__(self, o):
+        return isinstance(o, Dimensionality) and self.dims == o.dims
+
+    def __ne__(self, o):
+        return not self.__eq__(o)
+
+    def __hash__(self):
+        return hash(self.dims)
+
+    def __contains__(self, name):
+        if name not in self.NAMES:
+            raise Unsupported(f"dimension {name!r}")
+        return self.dims[self.NAMES[name]] != 0
 
 
 class Q:
@@ -77,6 +99,14 @@ class Q:
     m = magnitude
 
     @property
+    def units(self):
+        return Q(1, self.dims, self.scale)
+
+    @property
+    def dimensionality(self):
+        return Dimensionality(self.dims)
+
+    @property
     def dimensionless(self):
         return all(a == 0 for a in self.dims)
 
@@ -111,7 +141,7 @@ class Registry:
             "A": Q(1, _d(I=1), SR(1)), "ampere": Q(1, _d(I=1), SR(1)),
             "tesla": Q(1, _d(M=1, T=-2, I=-1), SR(1)), "T": Q(1, _d(M=1, T=-2, I=-1), SR(1)),
             "seconds": Q(1, _d(T=1), SR(1)), "s": Q(1, _d(T=1), SR(1)),
-            "mu_0": Q(self.mu0, _d(L=1, M=1, T=-2, I=-2), SR(1)),
+            "mu_0": Q(self.mu0, _d(L=1, M=1, T=-2, I=-2), SR(1)), "mu0": Q(self.mu0, _d(L=1, M=1, T=-2, I=-2), SR(1)),
             "Phi_0": Q(self.phi0, _d(L=2, M=1, T=-2, I=-1), SR(1)),
             "dimensionless": Q(1, _d(), SR(1)),
         }
